@@ -294,6 +294,7 @@ pub fn scenario(g: &mut G, ctx: &RunCtx) -> RunReport {
         lf_line_endings: false,
         twin: false,
         send_on_other_thread: false,
+        overall_timeout_ms: None,
         garbage: 0,
         declared_len: wire_body.len(),
         script: Script::from_wire(&wire.bytes, &segs, End::Fin),
